@@ -131,6 +131,58 @@ def scripted_late_answer(ctx, seed, goal, hop, topology="line4", after=False):
         w.close()
 
 
+def scripted_dup_create(ctx, seed, goal, hop, order):
+    """nodes whose should_join_circuit really suspends (the async extension point): the create for hop `hop` is
+    duplicated, both on_create tasks pass the guards and wait; they are resumed in the given order. Whatever the
+    joined node ends up with must be the keys of the answer the originator accepts."""
+    w = R.world("line4", seed, suspend_join=True)
+    try:
+        w.create_circuit("o", goal)
+        creates = 0
+        for _ in range(300):
+            if w.net.inflight:
+                d = w.net.inflight[0]
+                is_create = len(d.data) > 29 and d.data[22] == 0 and d.data[27] != 0 and d.data[29] == 2
+                if is_create:
+                    creates += 1
+                    if creates == hop:
+                        w.dup(d.seq)
+                        twin = w.net.inflight[-1]
+                        w.deliver(d.seq)
+                        w.deliver(twin.seq)
+                        held = [(n, w.cid(rc), k) for n, rc, k, _f in w.held_joins]
+                        for n, c, k in (held if order == 0 else held[::-1]):
+                            w.join_resume(n, c, k)
+                        continue
+                w.deliver(d.seq)
+                continue
+            if w.held_joins:
+                n, rc, k, _f = w.held_joins[0]
+                w.join_resume(n, w.cid(rc), k)
+                continue
+            ready = [c for c in w.ov["o"].circuits.values() if c.state == "READY"]
+            if ready or w.now_ms() > 30000 or w.fire_next_timer() is None:
+                break
+        for c in list(w.ov["o"].circuits.values()):
+            if c.state == "READY":
+                w.send_data("o", w.cid(c.circuit_id), 1)
+        for _ in range(40):
+            if w.net.inflight:
+                w.deliver(w.net.inflight[0].seq)
+            elif w.held_joins:
+                n, rc, k, _f = w.held_joins[0]
+                w.join_resume(n, w.cid(rc), k)
+            else:
+                break
+        tr = {"events": w.events, "topology": "line4", "seed": seed,
+              "profile": "dup-create g%d h%d order %d" % (goal, hop, order)}
+        K.check_escapes(ctx, w, tr, "dup-create")
+        key_probe(ctx, w, tr["profile"])
+        return tr, w.header()
+    finally:
+        w.close()
+
+
 def run(tier, seed, replay=None):
     setup_repo_path()
     ctx = Ctx(PID, tier, seed, "model_checking")
@@ -145,10 +197,13 @@ def run(tier, seed, replay=None):
                         "encrypted extended answers cannot be rewritten by a network attacker (only the plaintext created leg)",
                         "a malicious relay ON the path is represented by manipulations of the created it forwards"]
     install_probe(ctx)
-    bg = K.Background(["Onion_c08_a.cfg", "Onion_c08_b.cfg", "Onion_c08_t.cfg", "Onion_c08_a3.cfg", "Onion_c08_late_q.cfg"] +
+    bg = K.Background(["Onion_c08_a.cfg", "Onion_c08_b.cfg", "Onion_c08_t.cfg", "Onion_c08_a3.cfg", "Onion_c08_late_q.cfg", "Onion_c08_susp.cfg"] +
                       (["Onion_c08_late.cfg"] if tier == "thorough" else []),
                       [("Onion_c08_noident.cfg", "AnswerMustMatch",
                         "spec without the identifier comparison accepts a stale answer (AnswerMustMatch violated)"),
+                       ("Onion_c08_socketfirst.cfg", "EntriesStable",
+                        "spec whose join installs the exit socket before the cache refuses the duplicate lets a duplicated "
+                        "create re-key a joined hop while the admission decision is suspended (EntriesStable violated)"),
                        ("Onion_c08_norelayonce.cfg", "PathAgreement",
                         "spec in which a created may re-point a circuit that already is a relay (the code before the fix) lets a "
                         "late answer of an abandoned attempt change an established hop (PathAgreement violated)")])
@@ -182,6 +237,13 @@ def run(tier, seed, replay=None):
         tr, hdr4 = scripted_late_answer(ctx, seed * 100 + 80 + i, goal, hop, "two_exits", after)
         late2.append(tr)
     K.validate_family(ctx, PID, late2, "two_exits", hdr4, "late-answer-retried", NONTRIVIAL | {"Deliver"})
+    # the admission decision really suspends: duplicated creates at every hop position, both resume orders
+    susp = []
+    for i, (goal, hop, order) in enumerate([(1, 1, 0), (2, 2, 1), (3, 2, 0), (3, 3, 1)] if tier == "quick" else
+                                           [(g, h, o) for g in (1, 2, 3) for h in range(1, g + 1) for o in (0, 1)]):
+        tr, hdr5 = scripted_dup_create(ctx, seed * 100 + 90 + i, goal, hop, order)
+        susp.append(tr)
+    K.validate_family(ctx, PID, susp, "line4", hdr5, "suspended-join", NONTRIVIAL | {"JoinResume"}, suspend_join=True)
     ctx.note("scripted", {"runs": len(scr), "manipulations": sum(1 for t in scr for e in t["events"] if e["a"] == "MangleAnswer")})
     bg.collect(ctx)
     return ctx.finish()
